@@ -74,6 +74,9 @@ type Device struct {
 	script []string
 	pos    int
 	steps  []Step
+	// BareErrors: transport-level failures are gRPC statuses with a code and NO message (what a device library answers with a
+	// bare grpc::Status(CANCELLED)), instead of statuses carrying a text
+	BareErrors bool
 }
 
 func NewDevice(kind, state string, strict bool, script []string) *Device {
@@ -157,7 +160,7 @@ type Server struct {
 }
 
 func (s *Server) SetDevice(d *Device) { s.mu.Lock(); s.dev = d; s.mu.Unlock() }
-func (s *Server) device() *Device    { s.mu.Lock(); defer s.mu.Unlock(); return s.dev }
+func (s *Server) device() *Device     { s.mu.Lock(); defer s.mu.Unlock(); return s.dev }
 
 func (s *Server) Transition(_ context.Context, req *pb.TransitionRequest) (*pb.TransitionReply, error) {
 	d := s.device()
@@ -169,6 +172,9 @@ func (s *Server) Transition(_ context.Context, req *pb.TransitionRequest) (*pb.T
 		c := codes.Unavailable
 		if st.Code == "InvalidArgument" {
 			c = codes.InvalidArgument
+		}
+		if d.BareErrors {
+			return nil, status.Error(codes.Canceled, "")
 		}
 		return nil, status.Error(c, "scripted failure: "+st.Out)
 	}
